@@ -478,17 +478,17 @@ class Tr:
             die("%s: const %s: initialiser has type u%s" % (where, nm, e[1]))
         return ("lit", width, const_eval(e, where + " const " + nm))
 
-    def accessor(self, text, ctxname, where, recv="ctx", want=64):
-        """an arm of a MinidumpContext dispatch method -> typed expression (u64, or bool)"""
+    def accessor(self, text, ctxname, where, recv="ctx", want=64, env=None):
+        """an arm of a MinidumpContext dispatch method / a get or set arm -> typed expression (uN, or bool)"""
         p = ExprParser(self, tokenize(text, where), ctxname, where, recv)
-        e = p.block({})
+        e = p.block(env or {})
         if p.peek() is not None:
             p.bad("trailing tokens %r" % p.peek())
         if e[1] is None:
-            e = p.typed(e, 64)
+            e = p.typed(e, want if isinstance(want, int) else 64)
         e = fix_widths(e, where)
         if e[1] != want:
-            die("%s: arm has type %s, expected %s" % (where, e[1], "u64" if want == 64 else want))
+            die("%s: arm has type %s, expected %s" % (where, e[1], want))
         return e
 
     # ---------------------------------------------------------------- locations
@@ -596,7 +596,8 @@ class Tr:
                     die(w + " get_register_always: default arm is %r, expected unreachable!(..)" % rhs[:60])
                 default_seen = True
                 continue
-            get.append((parse_pats(pat, w + " get_register_always"), self.loc(rhs, ctxname, w + " get_register_always " + pat)))
+            get.append((parse_pats(pat, w + " get_register_always"),
+                        self.accessor(rhs, ctxname, w + " get_register_always " + pat, recv="self", want=t["width"])))
         if not default_seen:
             die(w + " get_register_always: no `_` arm")
         t["get"] = get
@@ -615,10 +616,13 @@ class Tr:
                     die(w + " set_register: default arm is %r, expected `return None`" % rhs[:60])
                 default_seen = True
                 continue
-            mm = re.fullmatch(r"(.+?)\s*=\s*val", rhs, re.S)
+            mm = re.fullmatch(r"([^=]+?)\s*=(?!=)\s*(.+)", rhs, re.S)
             if not mm:
-                die(w + " set_register: arm %s => %r is not `<place> = val`" % (pat, rhs[:60]))
-            st.append((parse_pats(pat, w + " set_register"), self.loc(mm.group(1), ctxname, w + " set_register " + pat)))
+                die(w + " set_register: arm %s => %r is not `<place> = <value>`" % (pat, rhs[:60]))
+            place = self.loc(mm.group(1), ctxname, w + " set_register " + pat)
+            value = self.accessor(mm.group(2), ctxname, w + " set_register " + pat, recv="self", want=place[2],
+                                  env={"val": t["width"]})
+            st.append((parse_pats(pat, w + " set_register"), place, value))
         if not default_seen:
             die(w + " set_register: no `_` arm")
         t["set"] = st
@@ -983,15 +987,16 @@ def emit(tables):
     for t in tables:
         nm = "ctx_" + t["variant"].lower()
         o.append("(* %s (%s), u%d; REGISTERS = %s;" % (t["name"], t["variant"], t["width"], " ".join(t["registers"])))
-        o.append("   get arms: %s;" % " ".join("|".join(ps) + "->" + l[0] + ("" if l[1] < 0 else "[%d]" % l[1]) for ps, l in t["get"]))
+        o.append("   get arms: %s;" % " ".join("|".join(ps) + "->" + show_aexp(e).replace("ctx.", "") for ps, e in t["get"]))
         o.append("   memoize arms: %s; sp %s ip %s *)" % (" ".join("|".join(ps) + "->" + m for ps, m in t["memo"]) or "-", t["sp_name"], t["ip_name"]))
         o.append("Definition %s : ctx_table := {|" % nm)
         o.append("  ct_name := %s;" % coq_str(t["name"]))
         o.append("  ct_variant := %s;" % coq_str(t["variant"]))
         o.append("  ct_width := %d;" % t["width"])
         o.append("  ct_registers := %s;" % coq_list(coq_str(r) for r in t["registers"]))
-        o.append("  ct_get := %s;" % coq_list("(%s, %s)" % (coq_list(coq_str(p) for p in ps), coq_loc(l)) for ps, l in t["get"]))
-        o.append("  ct_set := %s;" % coq_list("(%s, %s)" % (coq_list(coq_str(p) for p in ps), coq_loc(l)) for ps, l in t["set"]))
+        o.append("  ct_get := %s;" % coq_list("(%s, %s)" % (coq_list(coq_str(p) for p in ps), coq_aexp(e)) for ps, e in t["get"]))
+        o.append("  ct_set := %s;" % coq_list("(%s, %s)" % (coq_list(coq_str(p) for p in ps), coq_loc(l)) for ps, l, _ in t["set"]))
+        o.append("  ct_set_val := %s;" % coq_list("(%s, %s)" % (coq_list(coq_str(p) for p in ps), coq_aexp(e)) for ps, _, e in t["set"]))
         o.append("  ct_memo := %s;" % coq_list("(%s, %s)" % (coq_list(coq_str(p) for p in ps), coq_str(c)) for ps, c in t["memo"]))
         o.append("  ct_memo_cmp := %d;" % t["memo_cmp"])
         o.append("  ct_groups := %s;" % coq_list("(%s, %s)" % (coq_list(coq_str(p) for p in ps), coq_list(coq_str(a) for a in al)) for ps, al in t["groups"]))
@@ -1018,8 +1023,8 @@ def names_json(tables):
     d = {}
     for t in tables:
         names = []
-        for ps, _ in t["get"] + t["set"]:
-            for p in ps:
+        for arm in t["get"] + t["set"]:
+            for p in arm[0]:
                 if p not in names:
                     names.append(p)
         for ps, c in t["memo"]:
